@@ -17,6 +17,8 @@ pub struct RefSig {
     pub pclass: String,
     /// option list was malformed: only the prefix layout and the `bad` quirk are specified
     pub malformed: bool,
+    /// the `ts1-` quirk is specified even if `ambiguous_values` (exactly one timestamp option whose TSval octets are present)
+    pub ts1_decided: bool,
     /// more than one MSS/WS/TS option, or one with a non-standard length: value fields unjudged
     pub ambiguous_values: bool,
     pub mss_value: Option<u16>,
@@ -121,6 +123,9 @@ pub struct ParsedOpts {
     pub mss: Option<u16>,
     pub ws: Option<u8>,
     pub ts: Option<(u32, u32)>,
+    /// exactly one timestamp option and its TSval field (first four data octets) is on the wire,
+    /// whatever the option's declared length: Some(TSval == 0)
+    pub ts1_zero: Option<bool>,
     pub malformed: bool,
     pub ambiguous: bool,
     pub opt_plus: bool,
@@ -137,6 +142,7 @@ pub fn parse_opts(area: &[u8], stop_at_eol: bool) -> ParsedOpts {
         mss: None,
         ws: None,
         ts: None,
+        ts1_zero: None,
         malformed: false,
         ambiguous: false,
         opt_plus: false,
@@ -214,6 +220,9 @@ pub fn parse_opts(area: &[u8], stop_at_eol: bool) -> ParsedOpts {
                 } else {
                     p.ambiguous = true;
                 }
+                if len >= 6 {
+                    p.ts1_zero = Some(data[..4] == [0, 0, 0, 0]);
+                }
             }
             k => p.layout.push(format!("?{k}")),
         }
@@ -221,6 +230,9 @@ pub fn parse_opts(area: &[u8], stop_at_eol: bool) -> ParsedOpts {
     }
     if n_mss > 1 || n_ws > 1 || n_ts > 1 {
         p.ambiguous = true;
+    }
+    if n_ts != 1 {
+        p.ts1_zero = None;
     }
     p
 }
@@ -282,10 +294,12 @@ pub fn ref_sig(ip: &Ip, tcp: &Tcp, opt_area: &[u8], stop_at_eol: bool) -> RefSig
         quirks.push("pushf+".into());
     }
     let p = parse_opts(opt_area, stop_at_eol);
-    if let Some((tsval, tsecr)) = p.ts {
-        if tsval == 0 {
-            quirks.push("ts1-".into());
-        }
+    // "own timestamp specified as zero": decided by the TSval octets alone, also when the one
+    // timestamp option has a non-standard length (p0f reads TSval at a fixed offset as well)
+    if p.ts1_zero == Some(true) {
+        quirks.push("ts1-".into());
+    }
+    if let Some((_tsval, tsecr)) = p.ts {
         let pure_syn = fl & (flags::SYN | flags::ACK | flags::FIN | flags::RST) == flags::SYN;
         if pure_syn && tsecr != 0 {
             quirks.push("ts2+".into());
@@ -319,6 +333,7 @@ pub fn ref_sig(ip: &Ip, tcp: &Tcp, opt_area: &[u8], stop_at_eol: bool) -> RefSig
         pclass: if tcp.payload.is_empty() { "0".into() } else { "+".into() },
         malformed: p.malformed,
         ambiguous_values: p.ambiguous,
+        ts1_decided: p.ts1_zero.is_some(),
         mss_value: p.mss,
     }
 }
